@@ -498,6 +498,16 @@ func (e *Engine) load(st *State, pv Val, pos token.Pos) Val {
 		return Poison{fmt.Sprintf("load through %T", pv)}
 	}
 	e.nilGuard(st, alts, "load", pos)
+	if len(e.unwrittenGlobals) > 0 {
+		for _, a := range alts {
+			p := a.v.(Ptr)
+			if why, bad := e.unwrittenGlobals[p.obj]; bad {
+				if _, written := st.heap[p.obj]; !written {
+					return Poison{why}
+				}
+			}
+		}
+	}
 	var r Val
 	for i := len(alts) - 1; i >= 0; i-- {
 		p := alts[i].v.(Ptr)
